@@ -62,6 +62,13 @@ def enrich(e):
             x.update({"gap": gap, "dl": dl, "ds": ds, "same_sign": same,
                       # add.rs far-apart shortcut, evaluated with the exact digit count of the small operand
                       "far": gap > 0 and ds + 1 < gap and ds + 1 + rndp < dl + gap})
+    if e["op"] == "sqrt" and a > 0:
+        # the integer handed to UBig::sqrt_rem by root.rs: significand scaled to 2p-1 / 2p (/ 2p+1) digits
+        p, d, ex = e["prec"], x["da"], x["ea"]
+        shifts = {2 * p - (d & 1) + (ex & 1) - d, 2 * p - ((d + ex) & 1) - d}
+        bl = [(a * base ** s if s > 0 else abs(a) // base ** (-s)).bit_length() for s in shifts]
+        # finding F17 of UBig::sqrt_rem: odd number (>= 3) of 64-bit words and at most one leading zero bit in the top word
+        x["sqrt_rem_f17"] = any((n + 63) // 64 >= 3 and ((n + 63) // 64) % 2 == 1 and n % 64 in (0, 63) for n in bl)
     e["x"] = x
     return e
 
@@ -111,6 +118,9 @@ def nontrivial(e):
 
 
 def status(ctx, fid):
+    # development aid (like VERIF_REPO): model the repaired code before the finding entry is flipped to fixed
+    if fid in os.environ.get("VERIF_ASSUME_FIXED", "").split(","):
+        return "fixed"
     for k in ctx.known:
         if k["id"] == fid:
             return k.get("status")
@@ -120,7 +130,7 @@ def status(ctx, fid):
 def witnesses(ctx, ids):
     out = []
     for k in ctx.known:
-        if k["id"] in ids and k.get("status") == "open" and "witness" in k:
+        if k["id"] in ids and status(ctx, k["id"]) == "open" and "witness" in k:
             w = dict(k["witness"])
             w["src"] = "wit"
             out.append(w)
@@ -205,7 +215,7 @@ def run(ctx):
         ctx.notes.append("F24 exhibited by model checking FloatMulDivSqrt(SqrtFix=FALSE): %s" % bool(r.invariant_violated))
 
     # 3. spec -> impl: replay in every call form, verdict by the monitor
-    wit = witnesses(ctx, ("F02", "F24"))
+    wit = witnesses(ctx, ("F02", "F24", "F17@C03"))
     c1, n1 = write_cases(ctx, "add", r1.tagged("GEN"), extra=wit)
     c2, n2 = write_cases(ctx, "mds", r2.tagged("GEN"))
     if n1 == 0 or n2 == 0:
@@ -216,9 +226,9 @@ def run(ctx):
     monitor(ctx, "mon-gen-mds", tr2, timeout=2400)
 
     # 4. impl -> spec: seeded random operands, large precisions, huge gaps
-    n = ctx.pick(2500, 40000)
+    n = ctx.pick(2500, 20000)
     tr3 = ctx.drive(drive, ["--seed", str(ctx.seed), "--n", str(n), "--max-prec", "60",
-                            "--max-gap", str(ctx.pick(400, 1200))], "trace-rnd.ndjson")
+                            "--max-gap", str(ctx.pick(400, 800))], "trace-rnd.ndjson")
     monitor(ctx, "mon-rnd", tr3, timeout=3000)
 
     for ev, _, _ in ctx.violations:
